@@ -452,8 +452,8 @@ class Function:
                     try:
                         await ast_ctx.call_func(callback, None, *args, **kwargs)
                     except Exception as e:
+                        # a failing done-callback is reported; the remaining callbacks still run
                         ast_ctx.log_exception(e)
-                        break
             if task in cls.unique_task2name:
                 for name in cls.unique_task2name[task]:
                     del cls.unique_name2task[name]
